@@ -225,6 +225,7 @@ def oracle_c04(case, out):
         return [fail("no-crash", site_of(case), out["__exception__"], out.get("__msg__"))]
     emon_from = None     # number of calls made before an evaluation monitor was first installed
     emon_new_midrun = False
+    last_f13 = None
     tk, tpat = taint_index(case, out)
     for k, (op, s) in enumerate(zip(case["ops"], out["trace"])):
         o = op["op"]
@@ -242,6 +243,9 @@ def oracle_c04(case, out):
                 pat = "de2-skips-infinite-energies-without-evaluation-monitor"
             elif case["solver"] == "DE2" and s["emx"] is not None and len(s["emx"]) > 0 and s["evals"] == len(s["emx"]):
                 pat = "de2-counter-is-monitor-length"
+            elif case["solver"] == "DE2" and last_f13 is not None and last_f13[0] == (s["evals"], s["ncalls"]):
+                pat = last_f13[1]      # no evaluation since: the same stale counter value, observed again after a Set* call
+            last_f13 = ((s["evals"], s["ncalls"]), pat) if pat.startswith("de2-") else None
             f.append(fail("counter_is_calls", site_of(case), pat, dict(op=k, evaluations=s["evals"], real=s["ncalls"])))
         if o == "SetEvalMonitor":
             if emon_from is None:
